@@ -251,9 +251,19 @@ def _mape_call(case, y, p, w):
         args = (ys, ps, None if w is None else pandas.Series(w, index=idx))
     else:
         args = (y, p, w)
-    if case.get("positional_weights") and args[2] is not None:
-        return float(_metrics.ts_mape(args[0], args[1], args[2]))          # the documented signature: (expected_y, predicted_y, sample_weight)
-    return float(_metrics.ts_mape(args[0], args[1], sample_weight=args[2]))
+    def once():
+        if case.get("positional_weights") and args[2] is not None:
+            return float(_metrics.ts_mape(args[0], args[1], args[2]))          # the documented signature: (expected_y, predicted_y, sample_weight)
+        return float(_metrics.ts_mape(args[0], args[1], sample_weight=args[2]))
+    snap = [None if a is None else np.array(a, dtype=np.float64, copy=True) for a in args]
+    v1 = once()
+    # a metric reads its arguments: they hold afterwards what they held before (NaN forecasts included), and asking again gives the same
+    for name, a, b in zip(("expected_y", "predicted_y", "sample_weight"), args, snap):
+        if a is not None:
+            require(np.array_equal(np.asarray(a, dtype=np.float64), b, equal_nan=True), "mape:input-modified", "ts_mape changed its argument %s" % name, dict(container=cont))
+    v2 = once()
+    require(v1 == v2 or (v1 != v1 and v2 != v2), "mape:second-call-differs", "ts_mape on the same arguments: %r then %r" % (v1, v2), dict(container=cont))
+    return v1
 
 
 def check_mape_nonneg(case):
